@@ -4,6 +4,7 @@
 # pylint: disable=too-many-positional-arguments
 
 import numbers
+from copy import deepcopy
 
 import numpy as np
 from scipy.spatial.transform import Rotation as R
@@ -322,9 +323,10 @@ class BaseTransform:
         # Idea: An operation applied to a Collection is individually
         #    applied to its BaseGeo and to each child.
 
-        if isinstance(displacement, np.ndarray):
-            # the input may be a view of a child's path, which changes while the children are moved
-            displacement = displacement.copy()
+        if getattr(self, "children", None):
+            # the input may be (or hold) a view of a child's path, which changes while the
+            # children are moved
+            displacement = deepcopy(displacement)
 
         for child in getattr(self, "children", []):
             child.move(displacement, start=start)
